@@ -11,7 +11,7 @@
 EXTENDS Common
 
 EnvDevs == {"envelopeError", "wrongEnvTypeEcho", "otherFormatEnvelope", "corruptedSignature", "wrongPayloadType",
-            "targetNonObject", "targetNull", "otherDigest", "otherSize", "otherMediaType", "annDropped", "annAltered",
+            "targetNonObject", "targetNull", "otherDigest", "otherSize", "otherMediaType", "annDropped", "annDroppedEmpty", "annAltered",
             "extraPayloadField", "extraDescField", "altSpellingTarget", "altSpellingDescKey"}
 RawDevs == {"describeOtherKeyID", "keySpecUndecodable", "keySpecOtherFamily", "keySpecOtherSize",
             "generateOtherKeyID", "generateEmptyKeyID", "unparsableCert", "emptyChain", "chainNotMatchingKey",
@@ -26,7 +26,7 @@ EnvChecks == <<
   [name |-> "self-verify",       stops |-> {"corruptedSignature"}],
   [name |-> "payload-type",      stops |-> {"wrongPayloadType"}],
   [name |-> "payload-decode",    stops |-> {"targetNonObject"}],
-  [name |-> "descriptor-equal",  stops |-> {"targetNull", "otherDigest", "otherSize", "otherMediaType", "annDropped", "annAltered"}],
+  [name |-> "descriptor-equal",  stops |-> {"targetNull", "otherDigest", "otherSize", "otherMediaType", "annDropped", "annDroppedEmpty", "annAltered"}],
   [name |-> "unknown-fields",    stops |-> {"extraPayloadField", "extraDescField", "altSpellingTarget", "altSpellingDescKey"}] >>
 RawChecks == <<
   [name |-> "describe-key-id",   stops |-> {"describeOtherKeyID"}],
